@@ -296,6 +296,10 @@ var hazardPrograms = []string{
 	"function f() { \"use strict\"; return this === undefined } function g() { ('use strict'); return this === undefined } $p(f(), g());",
 	"function g() { 'a' + 'b'; 'use strict'; return this === undefined } $p(g());",
 	"for (var i of [1]) { if (i) continue; function f() { return 1 } } $p(typeof f); { function h() {} } $p(typeof h); sw: { break sw; function k() {} } $p(typeof k);",
+	"var i = 0; do { if (1 ?? 2) continue; function f3() { return \"called\" } } while (++i < 1); try { $p(f3()) } catch (e) { $p(e.constructor.name) }",
+	"function h(p) { { function p() {} } return typeof p } $p(h(1));",
+	"switch (1) { case 0: function sf() { return 1 } case 1: $p(typeof sf, sf()) } $p(typeof sf);",
+	"$p(typeof q1); { let q1 = 1; { function q1() {} } } $p(typeof q1); { function q2() { return 1 } $p(q2()) } $p(q2()); switch (1) { case 0: function q3() {} } $p(typeof q3); try { throw 0 } catch (q4) { { function q5() {} } } $p(typeof q5); if (1) function q6() {} $p(typeof q6); lbl: function q7() {} $p(typeof q7);",
 	"function g() { 1; 'use strict'; return this === undefined } function h() { ; 'use strict'; return this === undefined } function i() { 'use strict' + ''; return this === undefined } function j() { `use strict`; return this === undefined } $p(g(), h(), i(), j());",
 	"$p(((a, b) => a + b)(1, 2), (a => a)(1), (() => ({}))(), (() => { return {} })(), (async () => 1)() instanceof Promise, ((a = 1, {b} = {b: 2}, ...c) => [a, b, c])());",
 	"var a = 1, b = 2, c = 3; $p((a, b), [(a, b)], ((a, b), c), a ? b : c ? a : b, (a ? b : c) ? a : b, a ? (b, c) : a, (a = b) ? a : c, a = b ? a : c);",
@@ -327,7 +331,7 @@ var hazardPrograms = []string{
 // therefore run last and in few variants, so that they cannot crowd other
 // failures out of the failure list)
 func replaysKnownFinding(src string) bool {
-	for _, m := range []string{"use\\x20strict", "use\\u0020strict", "('use strict')", "'a' + 'b'; 'use strict'", "continue; function f()"} {
+	for _, m := range []string{"use\\x20strict", "use\\u0020strict", "('use strict')", "'a' + 'b'; 'use strict'", "continue; function f", "function h(p) { { function p()", "case 0: function sf()"} {
 		if strings.Contains(src, m) {
 			return true
 		}
@@ -360,8 +364,8 @@ func glueNodeLiterals(r *Rng, st *Stats, n int) {
 				continue
 			}
 			for v := 0; v < 4; v++ {
-				if pass == 1 && v >= 2 {
-					break
+				if pass == 1 && v >= 1 {
+					break // a recorded known finding is replayed once
 				}
 				o := api.TransformOptions{Loader: api.LoaderJS, LogLevel: api.LogLevelSilent, MinifyWhitespace: v%2 == 1}
 				desc := fmt.Sprint("corpus,minify-whitespace=", v%2 == 1)
@@ -373,10 +377,15 @@ func glueNodeLiterals(r *Rng, st *Stats, n int) {
 			}
 		}
 	}
+	// known finding E: a directive wrapped by --line-limit (replayed once)
+	add("function f() { \"use strict\"; return this === undefined } $p(f());", api.TransformOptions{Loader: api.LoaderJS, LogLevel: api.LogLevelSilent, LineLimit: 5}, "corpus,line-limit=5")
 	// seeded option variation
 	for k := 0; k < len(hazardPrograms) && k < n; k++ {
 		src := hazardPrograms[k]
 		g := randGlueOpts(r)
+		if replaysKnownFinding(src) {
+			continue
+		}
 		g.o.Supported = nil // feature overrides lower syntax: outside this property (literal stream only)
 		if i := strings.Index(g.desc, "supported:"); i >= 0 {
 			g.desc = strings.TrimSuffix(g.desc[:i], ",")
@@ -412,8 +421,14 @@ func glueNodeLiterals(r *Rng, st *Stats, n int) {
 		if strings.Contains(c.src, "\"use strict\"") && strings.Contains(c.desc, "line-limit") && !strings.Contains(c.out, "\"use strict\"") {
 			input["scenario"] = "directive-split-by-line-limit"
 		}
-		if strings.Contains(c.src, "continue; function f()") && hoistsBlockFunction(c.out) {
+		if strings.Contains(c.src, "continue; function f") && hoistsBlockFunction(c.out) {
 			input["scenario"] = "annexb-block-function-var-assigned-at-block-entry"
+		}
+		if strings.Contains(c.src, "case 0: function sf()") && strings.Contains(b.String(), "ReferenceError") {
+			input["scenario"] = "switch-case-block-function-let-in-unentered-clause"
+		}
+		if strings.Contains(c.src, "function h(p) { { function p()") && hoistsBlockFunction(c.out) {
+			input["scenario"] = "annexb-block-function-hoisted-over-parameter-name"
 		}
 		if strings.HasPrefix(c.out, "\x00ERR:") {
 			st.Fail("valid-program-rejected", input, c.out[1:], "accepted")
@@ -597,6 +612,100 @@ func glueJSX(r *Rng, st *Stats, n int) {
 		}
 		if i < 2 {
 			st.Sample(map[string]string{"program": c.src, "options": c.desc})
+		}
+	}
+}
+
+// ---------------------------------------------------------------------------
+// Annex B.3.3 block-level functions (hlib/jsgen_c01.go): the output must
+// behave like the input; the two recorded deviations are recognised EXACTLY:
+//   F  the output behaves like the input with the declaration moved to the
+//      start of its block, and something before the declaration position can
+//      observe that (Early);
+//   G  the function's name is a parameter name and the output behaves like the
+//      input with that parameter renamed (i.e. it was hoisted nevertheless),
+//      possibly combined with F.
+func glueAnnexB(r *Rng, st *Stats, n int) {
+	var cs []AnnexBCase
+	var outs, outsH []string
+	var progs []string
+	opt := func() api.TransformOptions {
+		o := api.TransformOptions{Loader: api.LoaderJS, LogLevel: api.LogLevelSilent, MinifyWhitespace: r.Chance(40)}
+		if r.Chance(20) {
+			o.Target = api.ESNext
+		}
+		return o
+	}
+	tr := func(src string, o api.TransformOptions) string {
+		res := api.Transform(src, o)
+		if len(res.Errors) > 0 {
+			return "\x00ERR:" + res.Errors[0].Text
+		}
+		return string(res.Code)
+	}
+	for k := 0; k < n; k++ {
+		c := GenAnnexB(r)
+		o := opt()
+		cs = append(cs, c)
+		outs = append(outs, tr(c.Src, o))
+		outsH = append(outsH, tr(c.Hoisted, o))
+		ren, renH := c.Renamed, c.RenamedHoisted
+		if !c.Param {
+			ren, renH = "$p(0)", "$p(0)"
+		}
+		progs = append(progs, c.Src, c.Hoisted, outs[k], outsH[k], ren, renH)
+	}
+	results, err := RunNodeScripts(progs, 2000)
+	if err != nil {
+		st.Fail("node-oracle-unavailable", err.Error(), nil, nil)
+		return
+	}
+	reported := map[string]int{}
+	for k, c := range cs {
+		nat, natH, out, outH, natR, natRH := results[6*k], results[6*k+1], results[6*k+2], results[6*k+3], results[6*k+4], results[6*k+5]
+		noisy := false
+		for _, x := range results[6*k : 6*k+6] {
+			noisy = noisy || oracleNoise(x)
+		}
+		if noisy {
+			st.Histogram["oracle-noise"]++
+			continue
+		}
+		if nat.Err() == "SyntaxError" && len(nat.Log) == 0 {
+			st.Histogram["annexb-generator-invalid"]++
+			continue
+		}
+		st.Note("annexb:"+c.Shape, c.Src, c.Early || c.Param)
+		input := map[string]string{"program": c.Src, "output": outs[k], "shape": c.Shape}
+		if strings.HasPrefix(outs[k], "\x00") {
+			st.Fail("valid-program-rejected", input, outs[k][1:], "accepted")
+			continue
+		}
+		if !c.Param && !c.Early && !c.SwitchOther && !natH.Same(outH) && stillDiffers(c.Hoisted, outsH[k]) {
+			st.Fail("behaviour-differs", map[string]string{"program": c.Hoisted, "output": outsH[k], "shape": c.Shape + ":declaration-first"}, outH.String(), natH.String())
+		}
+		if nat.Same(out) {
+			continue
+		}
+		scenario := ""
+		switch {
+		case c.SwitchOther && strings.Contains(out.String(), "ReferenceError") && !strings.Contains(nat.String(), "ReferenceError"):
+			scenario = "switch-case-block-function-let-in-unentered-clause"
+		case !c.Param && c.Early && natH.Same(out):
+			scenario = "annexb-block-function-var-assigned-at-block-entry"
+		case c.Param && (natR.Same(out) || natRH.Same(out)):
+			scenario = "annexb-block-function-hoisted-over-parameter-name"
+		}
+		if scenario != "" {
+			st.Histogram["known-shape:"+scenario]++
+			reported[scenario]++
+			if reported[scenario] > 1 {
+				continue // the same recorded deviation: one instance per run is enough
+			}
+			input["scenario"] = scenario
+		}
+		if stillDiffers(c.Src, outs[k]) {
+			st.Fail("behaviour-differs", input, out.String(), nat.String())
 		}
 	}
 }
